@@ -23,12 +23,14 @@ class Unsupported(Exception):
 
 
 class Sym:
-    __slots__ = ("term", "np")
+    __slots__ = ("term", "np", "dtype")
     # np: the value is a numpy scalar (affects division by zero and promotion)
+    # dtype: numpy dtype name of a numpy scalar (None: unknown / python value)
 
-    def __init__(self, term, np=False):
+    def __init__(self, term, np=False, dtype=None):
         self.term = term
-        self.np = np
+        self.np = np or dtype is not None
+        self.dtype = dtype
 
     def __bool__(self):
         raise Unsupported(
@@ -77,8 +79,12 @@ def to_term(v, want=None):
     return t
 
 
-def wrap(t, np=False):
-    t = z3.simplify(t) if False else t
+def wrap(t, np=False, dtype=None):
+    if dtype is not None:
+        if z3.is_int(t):
+            return SymInt(t, True, dtype)
+        if z3.is_real(t):
+            return SymReal(t, True, dtype)
     if z3.is_bool(t):
         if z3.is_true(t):
             return True
@@ -96,6 +102,13 @@ def wrap(t, np=False):
             return t.as_string()
         return SymStr(t)
     return SymOther(t)
+
+
+_SCALAR_HOOK = [None]  # set by npmodel: numpy scalar promotion
+
+
+def _np_scalar_op(a, b, ta, tb, da, db, f):
+    return _SCALAR_HOOK[0](a, b, ta, tb, da, db, f)
 
 
 def _num_pair(a, b):
@@ -120,6 +133,9 @@ class SymNum(Sym):
             return NotImplemented
         a, b = (other, self) if rev else (self, other)
         ta, tb = _num_pair(a, b)
+        da, db = getattr(a, "dtype", None), getattr(b, "dtype", None)
+        if da is not None or db is not None:
+            return _np_scalar_op(a, b, ta, tb, da, db, f)
         return wrap(z3.simplify(f(ta, tb)), _isnp(a, b))
 
     def __add__(self, o):
@@ -340,13 +356,7 @@ def subst_value(v, pairs):
     """Substitute z3 constants inside a (possibly structured) value."""
     if isinstance(v, Sym):
         t = z3.substitute(v.term, *pairs)
-        r = wrap(z3.simplify(t), v.np)
-        if isinstance(r, Sym) and hasattr(v, "dtype"):
-            try:
-                r.dtype = v.dtype
-            except AttributeError:
-                pass
-        return r
+        return wrap(z3.simplify(t), v.np, v.dtype)
     if isinstance(v, tuple):
         return tuple(subst_value(x, pairs) for x in v)
     if isinstance(v, list):
